@@ -1,6 +1,6 @@
 package main
 
-func init() { register("C02", checkC02) }
+func init() { register("C02", checkC02, cfgLinux386) }
 
 func checkC02(p *Program, tier string) *Result {
 	r := newResult("C02")
